@@ -57,13 +57,12 @@ mutual
 inductive Schema where
   /-- `serde_json::Value`, `JsonObject`: anything, objects become maps. -/
   | any
-  /-- A string-like type (`String`, identifiers, string enums, `Base64`, constants). `norm s` is
-  `none` when the type rejects the string and otherwise the string it writes back; for every type
-  but `Base64` that is `s` itself. -/
-  | str (norm : Str → Option Str)
-  /-- `js_int::Int` / `UInt` / `MilliSecondsSinceUnixEpoch`: an integer within `lo..hi`. -/
-  | int (lo hi : Int)
-  | bool
+  /-- A type that reads one JSON scalar (string, number, boolean, `null`) and writes one back:
+  `String`, identifiers, string enums, `Base64`, `js_int::Int`/`UInt`, `bool`, `f64`,
+  `VoipVersionId`, the lenient power-level reader. `norm v` is `none` when the type rejects `v` and
+  otherwise the scalar it writes back; for most types that is `v` itself (see `Schema.str`,
+  `Schema.int`, … below). Arrays and objects are rejected. -/
+  | scalar (norm : JVal → Option JVal)
   /-- `Vec<T>`. -/
   | arr (e : Schema)
   /-- `BTreeMap<K, V>` with a string-like key type accepting `keyOk`. -/
@@ -82,31 +81,35 @@ inductive Schema where
 `aliases` — other spellings accepted on input; `req` — absence fails; `dflt` — what is written when
 the field is absent (`none`: nothing); `nullAbsent` — `null` is read like absence; `lenient` — a
 value of the wrong type is read like absence instead of failing; `skip v` — the serialiser leaves
-the field out when it holds normal form `v`. -/
+the field out when it holds normal form `v`; `ghost` — the key is not read at all (any number of
+occurrences, any values) and `dflt` is always written: the constant a struct-level
+`#[serde(tag = "k", rename = "c")]` adds on serialisation only. -/
 inductive Field where
   | mk (name : Str) (aliases : List Str) (s : Schema) (req : Bool) (dflt : Option JVal)
-      (nullAbsent lenient : Bool) (skip : JVal → Bool)
+      (nullAbsent lenient : Bool) (skip : JVal → Bool) (ghost : Bool)
 /-- One case of a tagged choice: the discriminator's value and the struct read for it. -/
 inductive Case where
   | mk (label : Str) (s : Schema)
 end
 
 def Field.name : Field → Str
-  | .mk n _ _ _ _ _ _ _ => n
+  | .mk n _ _ _ _ _ _ _ _ => n
 def Field.aliases : Field → List Str
-  | .mk _ a _ _ _ _ _ _ => a
+  | .mk _ a _ _ _ _ _ _ _ => a
 def Field.schema : Field → Schema
-  | .mk _ _ s _ _ _ _ _ => s
+  | .mk _ _ s _ _ _ _ _ _ => s
 def Field.req : Field → Bool
-  | .mk _ _ _ r _ _ _ _ => r
+  | .mk _ _ _ r _ _ _ _ _ => r
 def Field.dflt : Field → Option JVal
-  | .mk _ _ _ _ d _ _ _ => d
+  | .mk _ _ _ _ d _ _ _ _ => d
 def Field.nullAbsent : Field → Bool
-  | .mk _ _ _ _ _ n _ _ => n
+  | .mk _ _ _ _ _ n _ _ _ => n
 def Field.lenient : Field → Bool
-  | .mk _ _ _ _ _ _ l _ => l
+  | .mk _ _ _ _ _ _ l _ _ => l
 def Field.skip : Field → JVal → Bool
-  | .mk _ _ _ _ _ _ _ s => s
+  | .mk _ _ _ _ _ _ _ s _ => s
+def Field.ghost : Field → Bool
+  | .mk _ _ _ _ _ _ _ _ g => g
 
 def Case.label : Case → Str
   | .mk l _ => l
@@ -140,18 +143,23 @@ def look (name : Str) (aliases : List Str) (o : Obj) : Look :=
 /-- What one field contributes to the output. -/
 inductive Out where
   | fail
-  | omit
+  | nothing
   | emit (v : JVal)
 
 def isNull : JVal → Bool
   | .null => true
   | _ => false
 
+def isScalar : JVal → Bool
+  | .arr _ => false
+  | .obj _ => false
+  | _ => true
+
 /-- The field was not given (or is read as not given). -/
 def absentOut (req : Bool) (dflt : Option JVal) : Out :=
   if req then .fail else
   match dflt with
-  | none => .omit
+  | none => .nothing
   | some d => .emit d
 
 /-- `Some(all)` iff every element is `Some` (a `Vec`/map visitor stops at the first error). -/
@@ -174,15 +182,12 @@ mutual
 /-- serialise ∘ deserialise under the type described by the schema; `none`: the input is rejected. -/
 def project : Schema → JVal → Option JVal
   | .any, v => some (serdeValue v)
-  | .str norm, .str s =>
-    match norm s with
-    | some s' => some (.str s')
-    | none => none
-  | .str _, _ => none
-  | .int lo hi, .int i => if lo ≤ i ∧ i ≤ hi then some (.int i) else none
-  | .int _ _, _ => none
-  | .bool, .bool b => some (.bool b)
-  | .bool, _ => none
+  | .scalar norm, v =>
+    if isScalar v then
+      match norm v with
+      | some b => if isScalar b then some b else none
+      | none => none
+    else none
   | .arr e, .arr xs =>
     match allSome (xs.map (project e)) with
     | some ys => some (.arr ys)
@@ -213,25 +218,70 @@ def projectFields : List Field → Obj → Option Obj
   | f :: fs, o =>
     match projectField f o with
     | .fail => none
-    | .omit => projectFields fs o
+    | .nothing => projectFields fs o
     | .emit v =>
       match projectFields fs o with
       | some out => some ((f.name, v) :: out)
       | none => none
 def projectField : Field → Obj → Out
-  | .mk name aliases s req dflt nullAbsent lenient skip, o =>
+  | .mk name aliases s req dflt nullAbsent lenient skip ghost, o =>
+    if ghost then absentOut req dflt else
     match look name aliases o with
     | .dup => .fail
     | .absent => absentOut req dflt
     | .one v =>
       if nullAbsent && isNull v then absentOut req dflt else
       match project s v with
-      | some nv => if skip nv then .omit else .emit nv
+      | some nv => if skip nv then .nothing else .emit nv
       | none => if lenient then absentOut req dflt else .fail
 /-- First case with the discriminator's label. -/
 def projectCases : List Case → Str → JVal → Option JVal
   | [], _, _ => none
   | .mk label s :: cs, t, v => if t = label then project s v else projectCases cs t v
 end
+
+/-! ### The scalar types that occur -/
+
+/-- A string-like type; `norm s` is what it writes back for `s` (`s` itself for every type but
+`Base64`, which re-encodes). -/
+def Schema.str (norm : Str → Option Str) : Schema :=
+  .scalar (fun v => match v with
+    | .str s => (match norm s with | some s' => some (.str s') | none => none)
+    | _ => none)
+
+/-- `js_int::Int` / `UInt` / `MilliSecondsSinceUnixEpoch`: an integer within `lo..hi`. -/
+def Schema.int (lo hi : Int) : Schema :=
+  .scalar (fun v => match v with
+    | .int i => if lo ≤ i ∧ i ≤ hi then some (.int i) else none
+    | _ => none)
+
+def Schema.bool : Schema :=
+  .scalar (fun v => match v with
+    | .bool b => some (.bool b)
+    | _ => none)
+
+/-- `f64`: any number, written as a float. -/
+def Schema.float : Schema :=
+  .scalar (fun v => match v with
+    | .int _ => some .float
+    | .float => some .float
+    | _ => none)
+
+/-- `Int` read through `ruma_common::serde::deserialize_v1_powerlevel`: an integer, or a string that
+`parse` reads as one; written as the integer. -/
+def Schema.intLax (lo hi : Int) (parse : Str → Option Int) : Schema :=
+  .scalar (fun v => match v with
+    | .int i => if lo ≤ i ∧ i ≤ hi then some (.int i) else none
+    | .str s => (match parse s with
+      | some i => if lo ≤ i ∧ i ≤ hi then some (.int i) else none
+      | none => none)
+    | _ => none)
+
+/-- `VoipVersionId`: the number `0` or any string. -/
+def Schema.voipVersion : Schema :=
+  .scalar (fun v => match v with
+    | .int i => if i = 0 then some (.int 0) else none
+    | .str s => some (.str s)
+    | _ => none)
 
 end Ruma.ContentSchema
